@@ -285,4 +285,58 @@ def clauses (r : Req) (o : Resp) : List (String × Bool) :=
 
 def holds (r : Req) (o : Resp) : Bool := (clauses r o).all (·.2)
 
+/-! ### the bundled client: "arrives with the arguments it was given and returns what the server answered" -/
+
+def pathString (p : List Seg) : String := "/".intercalate (p.map (·.txt))
+
+def pick (l : Bool) (op opLocal : String) : String := if l then opLocal else op
+
+/-- the operation a client call names, with the arguments it was given; `none`: the argument is not a
+    valid path (the client has to refuse it).  A bare `<cid>/…` path stands for `/ipfs/<cid>/…`. -/
+def callWant : Call → Option Want
+  | .id => some ⟨["Cluster.ID"], .unit⟩
+  | .version => some ⟨["Cluster.Version"], .unit⟩
+  | .peers => some ⟨["Cluster.Peers"], .unit⟩
+  | .alerts => some ⟨["Cluster.Alerts"], .unit⟩
+  | .graph => some ⟨["Cluster.ConnectGraph"], .unit⟩
+  | .metricNames => some ⟨["PeerMonitor.MetricNames"], .unit⟩
+  | .peerAdd s => s.pid.map (fun p => ⟨["Cluster.PeerAdd"], .pid p⟩)
+  | .peerRm s => s.pid.map (fun p => ⟨["Cluster.PeerRemove"], .pid p⟩)
+  | .pin s o => s.cid.map (fun c => ⟨["Cluster.Pin"], .pin c (normOpts o)⟩)
+  | .unpin s => s.cid.map (fun c => ⟨["Cluster.Unpin"], .cidOnly c⟩)
+  | .allocation s => s.cid.map (fun c => ⟨["Cluster.PinGet"], .cid c⟩)
+  | .pinPath p o => (clientPath p).map (fun p' => ⟨["Cluster.PinPath"], .path (pathString p') (normOpts o)⟩)
+  | .unpinPath p => (clientPath p).map (fun p' => ⟨["Cluster.UnpinPath"], .pathOnly (pathString p')⟩)
+  | .allocations _ => some ⟨["Cluster.Pins"], .unit⟩
+  | .status s l => s.cid.map (fun c => ⟨[pick l "Cluster.Status" "Cluster.StatusLocal"], .cid c⟩)
+  | .recover s l => s.cid.map (fun c => ⟨[pick l "Cluster.Recover" "Cluster.RecoverLocal"], .cid c⟩)
+  | .statusAll m l => some ⟨[pick l "Cluster.StatusAll" "Cluster.StatusAllLocal"], .num (toString m)⟩
+  | .recoverAll l => some ⟨[pick l "Cluster.RecoverAll" "Cluster.RecoverAllLocal"], .unit⟩
+  | .repoGC l => some ⟨[pick l "Cluster.RepoGC" "Cluster.RepoGCLocal"], .unit⟩
+  | .metrics s => some ⟨["PeerMonitor.LatestMetrics"], .str s.txt⟩
+
+def cliAuthorized (cfg : CliCfg) : Bool := !cfg.creds || cfg.auth == .right
+
+def arrived (w : Want) (ops : List Op) : Bool :=
+  match ops with
+  | [op] => w.ok op
+  | _ => false
+
+def isErrRet (r : Ret) : Bool :=
+  match r with
+  | .err k => decide (400 ≤ k)
+  | _ => false
+
+def cliClauses (cfg : CliCfg) (c : Call) (ops : List Op) (ret : Ret) : List (String × Bool) :=
+  match callWant c with
+  | none => [("client_refuses_invalid", ops.isEmpty && ret == .clientErr)]
+  | some w =>
+    if !cliAuthorized cfg then
+      [("client_gate", ops.isEmpty), ("client_returns", ret == .err 401)]
+    else
+      [("client_arrives", arrived w ops),
+       ("client_returns", if cfg.rpc == .ok then ret == .same else isErrRet ret)]
+
+def cliHolds (cfg : CliCfg) (c : Call) (ops : List Op) (ret : Ret) : Bool := (cliClauses cfg c ops ret).all (·.2)
+
 end CV.C11
